@@ -78,6 +78,53 @@ def serve (T : Table) (q : Req) : Resp :=
   if !checkAuth T (canon q.host) q.path (routeUser q) user pass then .unauthorized
   else forwardOf T q
 
+/-! ### the request as it is on the wire
+
+  `ServeHTTP` sees `req.URL.Path`, which net/http obtains from the request target by
+  `url.ParseRequestURI` → `setPath` → `unescape(p, encodePath)`: percent-decoding and nothing else — no
+  dot-segment removal, no merging of empty segments (the handler is installed directly in the
+  `http.Server`, there is no `ServeMux` in front of it).  Both `CheckAuth` and
+  `injectRequestInfoToCtx`/`CreateConnection` read that same decoded string. -/
+
+def pct : Nat := 37
+
+def hexv (c : Nat) : Option Nat :=
+  if 48 ≤ c ∧ c ≤ 57 then some (c - 48)
+  else if 97 ≤ c ∧ c ≤ 102 then some (c - 87)
+  else if 65 ≤ c ∧ c ≤ 70 then some (c - 55)
+  else none
+
+/-- net/url `unescape(s, encodePath)`; `none` = `EscapeError` (the server answers 400 Bad Request
+    before any handler runs) -/
+def unescapePath : Str → Option Str
+  | [] => some []
+  | c :: rest =>
+    if c = pct then
+      match rest with
+      | a :: b :: rest' =>
+        match hexv a, hexv b with
+        | some x, some y => (unescapePath rest').map (fun r => (x * 16 + y) :: r)
+        | _, _ => none
+      | _ => none
+    else (unescapePath rest).map (fun r => c :: r)
+
+/-- a request as sent: `target` is the path part of the request target, still percent-encoded
+    (origin-form `GET <target>`, absolute-form `GET http://<host><target>`, CONNECT: empty) -/
+structure WireReq where
+  host     : Str
+  proxied  : Bool                     -- absolute-form or CONNECT: req.URL.Host = host
+  target   : Str
+  auth     : Option (Str × Str)
+  pauth    : Option (Str × Str)
+
+/-- what net/http hands to the handler; `none` = rejected with 400 by the server -/
+def WireReq.parse (w : WireReq) : Option Req :=
+  (unescapePath w.target).map (fun p =>
+    { host := w.host, urlHost := if w.proxied then w.host else [], path := p, auth := w.auth, pauth := w.pauth })
+
+/-- `http.Server` + `ServeHTTP`; `none` = 400 from the server, no handler ran -/
+def serveWire (T : Table) (w : WireReq) : Option Resp := w.parse.map (serve T)
+
 /-! ### tcpmux (HTTP CONNECT) -/
 
 structure ConnectReq where
@@ -115,6 +162,69 @@ def pluginAuth (cfg : Creds) (pair : Option (Str × Str)) : Bool :=
   (match pair with
    | some (u, p) => u = cfg.user ∧ p = cfg.pass
    | none => false)
+
+/-! ### http_proxy plugin: what happens to the requests of one work connection
+
+  pkg/plugin/client/http_proxy.go.  `Handle` reads the first 7 bytes of the work connection: if they
+  spell CONNECT (any casing) the request is parsed and given to `handleConnectReq`; otherwise the
+  connection is queued to the embedded `http.Server`, whose handler `ServeHTTP` then sees every
+  request of the connection in turn (keep-alive), a CONNECT among them included, until a handler
+  hijacks the connection. -/
+
+def upperB (c : Nat) : Nat := if 97 ≤ c ∧ c ≤ 122 then c - 32 else c
+
+def mCONNECT : Str := [67, 79, 78, 78, 69, 67, 84]
+
+/-- `strings.ToUpper(string(firstBytes)) == "CONNECT"` on the first 7 bytes of `<method> SP …`
+    (a method is a token: it contains no space) -/
+def sniffConnect (method : Str) : Bool := (method.take 7).map upperB = mCONNECT
+
+/-- `req.Method == http.MethodConnect` -/
+def isConnect (method : Str) : Bool := method = mCONNECT
+
+structure PlReq where
+  method : Str
+  pair   : Option (Str × Str)         -- as in `pluginAuth`
+
+/-- what the plugin does with one request -/
+inductive PlAct
+  | refuseClose     -- handleConnectReq: getBadResponse (407, Connection: close), connection closed, nothing dialled
+  | challenge       -- ServeHTTP: 407 + Proxy-Authenticate: Basic, no handler runs, connection kept
+  | tunnel          -- handleConnectReq / ConnectHandler: net.Dial(req.URL.Host), "200 OK", join
+  | fetch           -- HTTPHandler: http.DefaultTransport.RoundTrip(req)
+deriving DecidableEq, Repr
+
+/-- the request reached what the plugin protects (a connection was dialled / a request sent on) -/
+def PlAct.reaches : PlAct → Bool
+  | .tunnel => true
+  | .fetch => true
+  | _ => false
+
+/-- `HTTPProxy.ServeHTTP`: Auth first, then the dispatch on the method -/
+def pluginServeHTTP (cfg : Creds) (q : PlReq) : PlAct :=
+  if !pluginAuth cfg q.pair then .challenge
+  else if isConnect q.method then .tunnel      -- hp.ConnectHandler
+  else .fetch                                  -- hp.HTTPHandler
+
+/-- `HTTPProxy.handleConnectReq` -/
+def pluginHandleConnect (cfg : Creds) (q : PlReq) : PlAct :=
+  if !pluginAuth cfg q.pair then .refuseClose else .tunnel
+
+/-- the embedded `http.Server` on one connection: each request goes through `ServeHTTP`; after a
+    hijack (`ConnectHandler`) the server no longer reads the connection -/
+def pluginServeConn (cfg : Creds) : List PlReq → List PlAct
+  | [] => []
+  | q :: rest =>
+    let a := pluginServeHTTP cfg q
+    a :: (if a = .tunnel then [] else pluginServeConn cfg rest)
+
+/-- `HTTPProxy.Handle` on a work connection carrying the requests `qs` (answers in order; the list
+    ends where the plugin stops reading requests) -/
+def pluginHandle (cfg : Creds) : List PlReq → List PlAct
+  | [] => []
+  | q :: rest =>
+    if sniffConnect q.method then [pluginHandleConnect cfg q]
+    else pluginServeConn cfg (q :: rest)
 
 end HttpAuth
 end Frp
